@@ -1,7 +1,8 @@
 """C05 — mutations through child views propagate to every enclosing view."""
 from hist import *  # noqa
 
-THEOREMS = []
+THEOREMS = ["C05_propagate", "C05_parent_reads_child", "C05_frame"]
+PARTIAL = ["C05_propagate is proved for one hook level (child of a top-level view); deeper chains repeat the same step in ModelStore.set_backing and are covered by the correspondence on chains up to depth 4 with every held view compared after every command"]
 COQ_IMPORTS = ["RM.Types", "RM.ModelStore", "RMR.RunH"]
 COQ_FN = "RunH.run"
 COQ_CASE_TY = "RunH.case"
